@@ -78,8 +78,73 @@ func goodTable() tabular.Table {
 	return t
 }
 
+// Table shapes of a C17 world: 0 = the good table; the others have no column at all.
+const c17Shapes = 5
+
+var shapeNames = []string{"good", "no-rows", "separators-only", "row-left-empty", "rows-of-no-items"}
+
+func fillShape(t tabular.Table, shape int) {
+	switch shape {
+	case 0:
+		t.AddHeaders("h1", "h2")
+		t.AddRowItems("a", "b")
+	case 1:
+	case 2:
+		t.AddSeparator()
+		t.AddSeparator()
+	case 3:
+		t.AppendNewRow()
+	case 4:
+		t.AddRowItems()
+		t.AddSeparator()
+		t.AddRowItems()
+	}
+}
+
+func shapeTable(shape int) tabular.Table {
+	t := tabular.New()
+	fillShape(t, shape)
+	return t
+}
+
+var (
+	// per shape: output -> the smallest palette decoration producing it, and
+	// palette decoration -> that representative
+	shapeOutToID []map[string]int
+	shapeRep     [][]int
+)
+
 func paletteInit() {
 	paletteOnce.Do(func() {
+		defer func() {
+			shapeOutToID = make([]map[string]int, c17Shapes)
+			shapeRep = make([][]int, c17Shapes)
+			shapeOutToID[0] = outToID
+			for s := 0; s < c17Shapes; s++ {
+				shapeRep[s] = make([]int, len(regPalette))
+				for i := range shapeRep[s] {
+					shapeRep[s][i] = i
+				}
+				if s == 0 {
+					continue
+				}
+				shapeOutToID[s] = map[string]int{}
+				for i, d := range regPalette {
+					if i == 0 {
+						continue
+					}
+					out, err := texttable.Wrap(shapeTable(s)).SetDecoration(d).Render()
+					if err != nil {
+						continue
+					}
+					if first, seen := shapeOutToID[s][out]; seen {
+						shapeRep[s][i] = first
+					} else {
+						shapeOutToID[s][out] = i
+					}
+				}
+			}
+		}()
 		regPalette = []decoration.Decoration{
 			decoration.EmptyDecoration,
 			decoration.ASCIIBoxSimple(),
